@@ -1,6 +1,7 @@
 package main
 
 import (
+	"runtime/debug"
 	"fmt"
 	"go/token"
 	"go/types"
@@ -44,12 +45,35 @@ func (w *World) findFunction(full string) *ssa.Function {
 		}
 	}
 	// generic instantiations
-	for fn := range allFunctions(w.prog) {
+	all := allFunctions(w.prog)
+	for fn := range all {
 		if fn.String() == full {
 			return fn
 		}
 	}
-	return nil
+	// a generic function or method named by its declaration (`(*T[P]).M`): the
+	// body exists per instantiation; the instance the loaded packages use whose
+	// name sorts first is verified (the code is the same for every instance,
+	// type arguments only change the representation of the parametric values)
+	var best *ssa.Function
+	norm := func(s string) string { return strings.ReplaceAll(s, ", ", ",") }
+	for fn := range all {
+		o := fn.Origin()
+		if o == nil || fn.Blocks == nil {
+			continue
+		}
+		matched := norm(o.String()) == norm(full)
+		if !matched && strings.HasPrefix(norm(full), norm(o.String())+"$") {
+			continue
+		}
+		if matched && (best == nil || fn.String() < best.String()) {
+			best = fn
+		}
+	}
+	if best == nil {
+		best = w.instantiateMethod(full)
+	}
+	return best
 }
 
 func matchFn(fn *ssa.Function, full string) *ssa.Function {
@@ -111,6 +135,9 @@ func (w *World) verifyFunc(fn *ssa.Function, c *FuncContract) (res *FuncResult) 
 	defer func() {
 		if r := recover(); r != nil {
 			res.Err = fmt.Sprint(r)
+			if w.verbose {
+				res.Err += "\n" + string(debug.Stack())
+			}
 		}
 		res.Diags = vc.diags
 	}()
@@ -169,7 +196,7 @@ func (w *World) verifyFunc(fn *ssa.Function, c *FuncContract) (res *FuncResult) 
 	// axioms stated in the contract file of the function's package (assumed,
 	// listed in the evidence)
 	for _, cf := range w.cfiles {
-		if fn.Pkg == nil || cf.PkgPath != fn.Pkg.Pkg.Path() {
+		if fnSSAPkg(fn) == nil || cf.PkgPath != fnTypesPkg(fn).Path() {
 			continue
 		}
 		for _, a := range cf.Axioms {
@@ -185,7 +212,7 @@ func (w *World) verifyFunc(fn *ssa.Function, c *FuncContract) (res *FuncResult) 
 					continue
 				}
 			}
-			aenv := &SpecEnv{x: x, st: st, pkg: fn.Pkg.Pkg, vars: map[string]*Val{}}
+			aenv := &SpecEnv{x: x, st: st, pkg: fnTypesPkg(fn), vars: map[string]*Val{}}
 			g, err := aenv.assuming().evalBool(a.Expr)
 			if err != nil {
 				vc.diag("axiom %s: %v", a.Label, err)
@@ -209,7 +236,7 @@ func (w *World) verifyFunc(fn *ssa.Function, c *FuncContract) (res *FuncResult) 
 	// closures that escaped (handed to a callee the engine did not execute them
 	// through) are verified on their own: arbitrary arguments, arbitrary values
 	// of the captured variables, arbitrary memory
-	if len(c.Sends) > 0 || len(c.Reach) > 0 || len(c.LitEns) > 0 {
+	if len(c.Sends) > 0 || len(c.Reach) > 0 || len(c.LitEns) > 0 || len(c.LitReq) > 0 {
 		w.verifyEscapedClosures(x, fn, c)
 	}
 	for _, lc := range c.LitEns {
@@ -336,12 +363,37 @@ func (w *World) verifyEscapedClosures(x *Exec, fn *ssa.Function, c *FuncContract
 					for _, p := range af.Params {
 						v := x.freshVal(p.Name(), p.Type())
 						x.refFacts(st, v)
+						if _, isSig := under(p.Type()).(*types.Signature); isSig {
+							// `calls NAME pure` of the enclosing contract applies
+							v.X = &ParamFn{name: p.Name()}
+						}
 						args = append(args, v)
 					}
 					// captured variables: unknown cells that exist from the start
 					// (created lazily they would exist on some paths only)
 					for _, fv := range af.FreeVars {
 						fr.val(st, fv)
+					}
+					fr.args = args
+					root := af
+					for root.Parent() != nil {
+						root = root.Parent()
+					}
+					suffix := strings.TrimPrefix(af.Name(), root.Name()+"$")
+					for _, lc := range c.LitReq {
+						if lc.Lit != suffix {
+							continue
+						}
+						env := fr.specEnv(st)
+						env.old = nil
+						env.lookup = func(s *State, name string) (*Val, bool) { return fr.lookupLocal(s, name, af.Pos()) }
+						g, err := env.assuming().evalBool(lc.Clause.Expr)
+						if err != nil {
+							x.vc.diag("%s: literal %s requires %q: %v", af.String(), lc.Lit, lc.Clause.Text, err)
+							continue
+						}
+						x.vc.assume(g)
+						x.vc.diag("%s: assumed at the literal's entry: %s", af.String(), lc.Clause.Text)
 					}
 					fr.entry = st.clone()
 					fr.run(st, args)
@@ -388,4 +440,66 @@ func (w *World) verifyLemma(cf *ContractFile, l *Clause) *FuncResult {
 
 func sortObls(os []*Obl) {
 	sort.SliceStable(os, func(i, j int) bool { return os[i].ID < os[j].ID })
+}
+
+// instantiateMethod: `(*pkg.Type[P, ...]).Method` of a generic type - the
+// method body exists per instantiation only. Every type parameter is
+// instantiated with uint8 (struct{} if the constraint rejects that): the code is
+// the same for every instance, a parametric value is only copied.
+func (w *World) instantiateMethod(full string) *ssa.Function {
+	if !strings.HasPrefix(full, "(") {
+		return nil
+	}
+	close := strings.Index(full, ").")
+	if close < 0 {
+		return nil
+	}
+	recv, meth := full[1:close], full[close+2:]
+	ptr := strings.HasPrefix(recv, "*")
+	recv = strings.TrimPrefix(recv, "*")
+	br := strings.Index(recv, "[")
+	if br < 0 {
+		return nil
+	}
+	qual := recv[:br]
+	dot := strings.LastIndex(qual, ".")
+	if dot < 0 {
+		return nil
+	}
+	tp := w.typesPkg(qual[:dot])
+	if tp == nil {
+		return nil
+	}
+	tn, _ := tp.Scope().Lookup(qual[dot+1:]).(*types.TypeName)
+	if tn == nil {
+		return nil
+	}
+	named, _ := tn.Type().(*types.Named)
+	if named == nil || named.TypeParams().Len() == 0 {
+		return nil
+	}
+	var targs []types.Type
+	for i := 0; i < named.TypeParams().Len(); i++ {
+		targs = append(targs, types.Typ[types.Uint8])
+	}
+	inst, err := types.Instantiate(nil, named, targs, true)
+	if err != nil {
+		for i := range targs {
+			targs[i] = types.NewStruct(nil, nil)
+		}
+		if inst, err = types.Instantiate(nil, named, targs, true); err != nil {
+			return nil
+		}
+	}
+	var rt types.Type = inst
+	if ptr {
+		rt = types.NewPointer(inst)
+	}
+	ms := w.prog.MethodSets.MethodSet(rt)
+	for i := 0; i < ms.Len(); i++ {
+		if ms.At(i).Obj().Name() == meth {
+			return w.prog.MethodValue(ms.At(i))
+		}
+	}
+	return nil
 }
